@@ -16,6 +16,53 @@ fn peer_pb(p: &schema::kademlia::Peer) -> String {
     format!("{{id={},addrs=[{}],conn={}}}", hexd(&p.id), addrs.join(";"), p.connection)
 }
 
+fn spec_peer(s: &str) -> Option<schema::kademlia::Peer> {
+    use crate::verif::c19::spec;
+    let f: Vec<&str> = s.split('/').collect();
+    let [id, addrs, conn] = f.as_slice() else { return None };
+    Some(schema::kademlia::Peer {
+        id: spec::b(id)?,
+        addrs: spec::lb(addrs)?,
+        connection: spec::int(conn)?,
+        ..Default::default()
+    })
+}
+
+fn spec_record(s: &str) -> Option<Option<schema::kademlia::Record>> {
+    use crate::verif::c19::spec;
+    if s == "none" {
+        return Some(None);
+    }
+    let f: Vec<&str> = s.split(',').collect();
+    let [k, v, tr, publisher, ttl] = f.as_slice() else { return None };
+    Some(Some(schema::kademlia::Record {
+        key: spec::b(k)?,
+        value: spec::b(v)?,
+        time_received: spec::st(tr)?,
+        publisher: spec::b(publisher)?,
+        ttl: ttl.parse().ok()?,
+        ..Default::default()
+    }))
+}
+
+/// `encpb kad <type> <clr> <key> <record> <closer> <providers>`: prost's encoder on a structured
+/// message, then prost's decoder on the bytes.
+pub(crate) fn encpb(t: &[&str]) -> Option<String> {
+    use crate::verif::c19::spec;
+    let [ty, clr, key, rec, closer, prov] = t else { return None };
+    let m = schema::kademlia::Message {
+        r#type: spec::int(ty)?,
+        cluster_level_raw: spec::int(clr)?,
+        key: spec::b(key)?,
+        record: spec_record(rec)?,
+        closer_peers: spec::list(closer, spec_peer)?,
+        provider_peers: spec::list(prov, spec_peer)?,
+        ..Default::default()
+    };
+    let bytes = m.encode_to_vec();
+    Some(format!("ok {} ==> {}", hexd(&bytes), pb(&bytes)))
+}
+
 /// Canonical dump of `schema::kademlia::Message::decode`.
 pub(crate) fn pb(bytes: &[u8]) -> String {
     match schema::kademlia::Message::decode(bytes) {
@@ -144,10 +191,13 @@ fn mk_record(t: &[&str]) -> Record {
         key: RecordKey::from(unhex(t[0])),
         value: unhex(t[1]),
         publisher: if t[2] == "-" { None } else { Some(crate::verif::peer(t[2].parse().expect("publisher"))) },
-        expires: if t[3] == "0" {
-            None
-        } else {
-            Some(std::time::Instant::now() + std::time::Duration::from_secs(3600))
+        // 0: no expiry (ttl 0); 1: in an hour (ttl 3599 or 3600, clock dependent); 2: already expired
+        // (ttl 1); 3: beyond u32 seconds (ttl u32::MAX)
+        expires: match t[3] {
+            "0" => None,
+            "2" => Some(std::time::Instant::now()),
+            "3" => Some(std::time::Instant::now() + std::time::Duration::from_secs(1 << 33)),
+            _ => Some(std::time::Instant::now() + std::time::Duration::from_secs(3600)),
         },
     }
 }
@@ -182,6 +232,102 @@ pub(crate) fn encode(t: &[&str]) -> Option<Vec<u8>> {
                 .collect(),
             &mk_peers(closer),
         ),
+        _ => return None,
+    })
+}
+
+/// The inputs of an encoder as the bytes the encoder will read from them (same accessor calls as
+/// `From<&KademliaPeer> for schema::kademlia::Peer` / `record_to_schema`; the order of several addresses
+/// of one peer comes out of a hash map and is reported from the very value handed to the encoder,
+/// not assumed).
+fn explicit_peer(p: &KademliaPeer, conn: i32) -> String {
+    let addrs: Vec<String> = p.addresses().iter().map(|a| hexd(&a.to_vec())).collect();
+    format!("{}/{}/{}", hex(&p.peer.to_bytes()), addrs.join("+"), conn)
+}
+
+fn explicit_peers(ps: &[KademliaPeer], conn: Option<i32>) -> String {
+    if ps.is_empty() {
+        "-".into()
+    } else {
+        ps.iter()
+            .map(|p| explicit_peer(p, conn.unwrap_or(i32::from(p.connection))))
+            .collect::<Vec<_>>()
+            .join(";")
+    }
+}
+
+fn explicit_record(t: &[&str], r: &Record) -> String {
+    let ttl: u64 = match t[3] {
+        "0" => 0,
+        "2" => 1,
+        "3" => u32::MAX as u64,
+        _ => 3599,
+    };
+    format!(
+        "{} {} {} {}",
+        hexd(r.key.as_ref()),
+        hexd(&r.value),
+        r.publisher.map(|p| hex(&p.to_bytes())).unwrap_or_else(|| "none".into()),
+        ttl
+    )
+}
+
+/// `enc <kind> ...`: the encoded bytes plus the explicit inputs for the model (`kenc <inputs>`).
+/// Providers are passed to the encoders as `ContentProvider`s, which rebuild the address store:
+/// their address order is only defined for at most one address (the generator keeps to that).
+pub(crate) fn encode_explicit(t: &[&str]) -> Option<(Vec<u8>, String)> {
+    Some(match t {
+        ["findnode", key] =>
+            (KademliaMessage::find_node(unhex(key)).to_vec(), format!("findnode {}", hexd(&unhex(key)))),
+        ["putvalue", rest @ ..] if rest.len() == 4 => {
+            let r = mk_record(rest);
+            let inputs = format!("putvalue {}", explicit_record(rest, &r));
+            (KademliaMessage::put_value(r).to_vec(), inputs)
+        }
+        ["getrecord", key] => (
+            KademliaMessage::get_record(RecordKey::from(unhex(key))).to_vec(),
+            format!("getrecord {}", hexd(&unhex(key))),
+        ),
+        ["findnode_resp", key, peers] => {
+            let ps = mk_peers(peers);
+            let inputs = format!("findnode_resp {} {}", hexd(&unhex(key)), explicit_peers(&ps, None));
+            (KademliaMessage::find_node_response(unhex(key), ps), inputs)
+        }
+        ["putvalue_resp", key, value] => (
+            KademliaMessage::put_value_response(RecordKey::from(unhex(key)), unhex(value)).to_vec(),
+            format!("putvalue_resp {} {}", hexd(&unhex(key)), hexd(&unhex(value))),
+        ),
+        ["getvalue_resp", key, peers, rest @ ..] => {
+            let ps = mk_peers(peers);
+            let record = if rest.len() == 4 { Some(mk_record(rest)) } else { None };
+            let rec = record.as_ref().map(|r| format!(" {}", explicit_record(rest, r))).unwrap_or_default();
+            let inputs = format!("getvalue_resp {} {}{}", hexd(&unhex(key)), explicit_peers(&ps, None), rec);
+            (KademliaMessage::get_value_response(RecordKey::from(unhex(key)), ps, record), inputs)
+        }
+        ["addprovider", key, peer] => {
+            let p = mk_peer(peer);
+            let inputs = format!("addprovider {} {}", hexd(&unhex(key)), explicit_peer(&p, i32::from(p.connection)));
+            let bytes = KademliaMessage::add_provider(
+                RecordKey::from(unhex(key)),
+                ContentProvider { peer: p.peer, addresses: p.addresses() },
+            )
+            .to_vec();
+            (bytes, inputs)
+        }
+        ["getproviders", key] => (
+            KademliaMessage::get_providers_request(RecordKey::from(unhex(key))).to_vec(),
+            format!("getproviders {}", hexd(&unhex(key))),
+        ),
+        ["getproviders_resp", providers, closer] => {
+            let cs = mk_peers(closer);
+            let ps = mk_peers(providers);
+            let inputs = format!("getproviders_resp {} {}", explicit_peers(&ps, None), explicit_peers(&cs, None));
+            let bytes = KademliaMessage::get_providers_response(
+                ps.into_iter().map(|p| ContentProvider { peer: p.peer, addresses: p.addresses() }).collect(),
+                &cs,
+            );
+            (bytes, inputs)
+        }
         _ => return None,
     })
 }
